@@ -248,7 +248,6 @@ Proof.
 Qed.
 
 (* ... which is Rt.chunks, the function the interpreter uses for splitEqual *)
-Definition head_key (ch : list (coord * trie)) : Z := match ch with ct :: _ => fst ct | [] => 0 end.
 Lemma equal_split_chunks n : (0 < n)%nat -> forall fuel l,
   equal_split fuel n l = map (fun ch => (head_key ch, Node ch)) (Rt.chunks fuel n l).
 Proof.
@@ -286,8 +285,6 @@ Proof.
       specialize (Hhead eq_refl). discriminate.
 Qed.
 
-Definition term_ok (r : rank) (tm : term) : Prop :=
-  forall t, In t tm -> NoDup (rem t) /\ (holds r t = true -> participates r t = true).
 
 Lemma term_den_split_at r r1 r0 bs tm p : StronglySorted Z.lt bs -> term_ok r tm ->
   term_den (split_term_at r r1 r0 bs tm) p =
@@ -325,9 +322,6 @@ Proof.
   intros r r1 r0 bs tms L' Hs Hok Hp Hwf p. rewrite (nest_sound L' _ Hwf p). apply body_den_split_at; assumption.
 Qed.
 
-(* the leader: the tensor at position k of the term, next rank r, current fiber sorted *)
-Definition leader_ok (r : rank) (k : nat) (tm : term) : Prop :=
-  exists ld, nth_error tm k = Some ld /\ participates r ld = true /\ StronglySorted Z.lt (keys (children (cur ld))).
 
 Lemma leader_bounds_sorted r n k tm : leader_ok r k tm -> StronglySorted Z.lt (leader_bounds n k tm).
 Proof.
@@ -589,9 +583,6 @@ Proof.
   rewrite (H r (or_introl eq_refl)). apply IH. intros x Hx. apply H. right. exact Hx.
 Qed.
 
-(* what must hold of every state at which the split is applied *)
-Definition occ_state_ok (r r1 r0 : rank) (n k : nat) (Li : list rank) (s : list term) : Prop :=
-  (forall tm, In tm s -> term_ok r tm /\ leader_ok r k tm) /\ wf Li (map (occ_split r r1 r0 n k) s).
 
 Lemma collapse_outer r r0 p Lo : ~ In r Lo -> forall x, In x Lo -> collapse r r0 p x = p x.
 Proof.
@@ -659,3 +650,120 @@ Proof.
   unfold occ_consistent. rewrite H0, Eu, H1. rewrite (Z.eqb_sym u u').
   destruct (u' =? u); [|reflexivity]. apply term_den_lift; assumption.
 Qed.
+
+(* ---------- the static validator of a dynamically placed split ---------- *)
+Lemma tsortedb_node l : tsortedb (Node l) = sortedb (keys l) && forallb (fun ct => tsortedb (snd ct)) l.
+Proof. reflexivity. Qed.
+
+Lemma tsortedb_lookup c l t : tsortedb (Node l) = true -> lookup c l = Some t -> tsortedb t = true.
+Proof.
+  rewrite tsortedb_node. intros H. apply andb_true_iff in H as [_ H].
+  induction l as [|[c' t'] l IH]; cbn [lookup]; [discriminate|].
+  cbn [forallb snd] in H. apply andb_true_iff in H as [H1 H2].
+  destruct (c =? c'); [intros E; injection E as <-; exact H1|apply IH; exact H2].
+Qed.
+
+Lemma tsortedb_default rs : tsortedb (default_of rs) = true.
+Proof. destruct rs; reflexivity. Qed.
+
+Lemma tsortedb_advance c t : tsortedb (cur t) = true -> tsortedb (cur (advance c t)) = true.
+Proof.
+  unfold advance. destruct t as [rs cu]; cbn [rem cur]. destruct rs as [|x rs']; [auto|].
+  destruct cu as [v|l]; intros H; [apply tsortedb_default|].
+  destruct (lookup c l) eqn:E; cbn [cur]; [eapply tsortedb_lookup; eauto|apply tsortedb_default].
+Qed.
+
+Lemma tsortedb_kill t : tsortedb (cur t) = true -> tsortedb (cur (kill t)) = true.
+Proof.
+  unfold kill. destruct t as [rs cu]; cbn [rem cur]. destruct rs as [|x rs']; [auto|]. intros _. apply tsortedb_default.
+Qed.
+
+Lemma tsortedb_step_nth r c tm k ld' : (forall ld, nth_error tm k = Some ld -> tsortedb (cur ld) = true) ->
+  nth_error (step_term r c tm) k = Some ld' -> tsortedb (cur ld') = true.
+Proof.
+  intros H. unfold step_term. destruct (term_alive r c tm); rewrite nth_error_map;
+    destruct (nth_error tm k) as [ld|]; cbn [option_map]; try discriminate; intros E; injection E as <-;
+    specialize (H ld eq_refl); destruct (participates r ld); auto using tsortedb_advance, tsortedb_kill.
+Qed.
+
+Lemma tsortedb_children t : tsortedb t = true -> sortedb (keys (children t)) = true.
+Proof. destruct t as [v|l]; [reflexivity|]. rewrite tsortedb_node. intros H. apply andb_true_iff in H as [H _]. exact H. Qed.
+
+Lemma rems_occ_split r r1 r0 n k tm : map rem (occ_split r r1 r0 n k tm) = map (occ_rems r r1 r0) (map rem tm).
+Proof.
+  unfold occ_split, split_term_at. rewrite !map_map. apply map_ext. intros t. unfold occ_tstate, occ_rems.
+  destruct t as [rs cu]; cbn [rem cur]. destruct rs as [|x rest]; [reflexivity|]. destruct (String.eqb x r); reflexivity.
+Qed.
+
+Lemma occ_dyn_okb_notin Lo r r1 r0 k Li sh : occ_dyn_okb Lo r r1 r0 k Li sh = true -> ~ In r Lo.
+Proof.
+  revert sh; induction Lo as [|x Lo IH]; intros sh H; [intros []|]. cbn [occ_dyn_okb] in H.
+  apply andb_true_iff in H as [H H3]. apply andb_true_iff in H as [H1 _]. apply negb_true_iff, String.eqb_neq in H1.
+  intros [E|Hin]; [contradiction|]. exact (IH _ H3 Hin).
+Qed.
+
+(* the rank structure is accepted and the leader's trie is hereditarily sorted: the hypotheses of occ_dyn_sound hold for
+   ALL tries of that rank structure *)
+Theorem occ_dyn_okb_wf : forall Lo r r1 r0 n k Li tm,
+  occ_dyn_okb Lo r r1 r0 k Li (map rem tm) = true ->
+  (forall ld, nth_error tm k = Some ld -> tsortedb (cur ld) = true) ->
+  wf_outer Lo (occ_state_ok r r1 r0 n k Li) [tm].
+Proof.
+  induction Lo as [|x Lo IH]; intros r r1 r0 n k Li tm H Hs; cbn [occ_dyn_okb wf_outer] in *.
+  - apply andb_true_iff in H as [H H3]. apply andb_true_iff in H as [H1 H2]. split.
+    + intros tm' [<-|[]]. split.
+      * intros t Ht. rewrite forallb_forall in H1. specialize (H1 (rem t) (in_map rem tm t Ht)).
+        destruct (rems_okb_sound r (rem t) H1) as [Hnd Hh]. split; [exact Hnd|].
+        intros Hho. rewrite participates_heads. apply Hh. apply holds_in. exact Hho.
+      * rewrite nth_error_map in H2. destruct (nth_error tm k) as [ld|] eqn:E; cbn [option_map] in H2; [|discriminate].
+        exists ld. split; [exact E|]. split; [rewrite participates_heads; exact H2|].
+        apply sortedb_sound, tsortedb_children, Hs. reflexivity.
+    + cbn [map]. apply swf_wf. cbn [map]. rewrite rems_occ_split. exact H3.
+  - apply andb_true_iff in H as [H H3]. apply andb_true_iff in H as [_ H2]. split.
+    + intros tm' [<-|[]]. apply existsb_exists in H2 as [rs [Hin Hh]]. apply in_map_iff in Hin as [t [<- Ht]].
+      exists t. split; [exact Ht|]. rewrite participates_heads. exact Hh.
+    + intros c. cbn [map]. apply IH.
+      * rewrite rems_step_term. exact H3.
+      * intros ld' E. eapply tsortedb_step_nth; eauto.
+Qed.
+
+(* certified validation of one product term with a dynamically placed occupancy split *)
+Theorem occ_dyn_okb_sound : forall Lo r r1 r0 n k Li tm,
+  occ_dyn_okb Lo r r1 r0 k Li (map rem tm) = true ->
+  (forall ld, nth_error tm k = Some ld -> tsortedb (cur ld) = true) ->
+  forall p, sum_at p (run_then_split Lo (occ_split r r1 r0 n k) Li [tm]) =
+            if occ_consistent (leader_bounds n k (reach_term Lo p tm)) r1 r0 p then term_den tm (collapse r r0 p) else 0.
+Proof.
+  intros Lo r r1 r0 n k Li tm H Hs. apply occ_dyn_sound.
+  - eapply occ_dyn_okb_notin. exact H.
+  - apply occ_dyn_okb_wf; assumption.
+Qed.
+
+Section ExamplesDyn.
+Local Open Scope string_scope.
+(* Z[i] = A[i,k] * B[k], K occupancy-partitioned (leader A, chunks of 2) beneath I: the boundaries differ from one
+   I-coordinate to the next - {1,4} in A[0,:] = {1,3,4}, {0,5} in A[2,:] = {0,3,5,8}; the follower B = {0,3,4,5,9} *)
+Definition exd_A : tstate := {| rem := ["I"; "K"];
+  cur := Node [(0, Node [(1, Leaf 2); (3, Leaf 5); (4, Leaf 1)]); (2, Node [(0, Leaf 3); (3, Leaf 4); (5, Leaf 6); (8, Leaf 1)])] |}.
+Definition exd_B : tstate := {| rem := ["K"]; cur := Node [(0, Leaf 7); (3, Leaf 11); (4, Leaf 2); (5, Leaf 13); (9, Leaf 2)] |}.
+Definition exd_tm : term := [exd_A; exd_B].
+Definition exd_point (i k1 k0 : Z) : point :=
+  fun x => if String.eqb x "I" then i else if String.eqb x "K1" then k1 else if String.eqb x "K0" then k0 else 0.
+
+Example occ_dyn_example :
+  let cs := run_then_split ["I"] (occ_split "K" "K1" "K0" 2 0) ["K1"; "K0"] [exd_tm] in
+  occ_dyn_okb ["I"] "K" "K1" "K0" 0 ["K1"; "K0"] (map rem exd_tm) = true /\
+  (forall ld, nth_error exd_tm 0 = Some ld -> tsortedb (cur ld) = true) /\
+  leader_bounds 2 0 (reach_term ["I"] (exd_point 0 0 0) exd_tm) = [1; 4] /\
+  leader_bounds 2 0 (reach_term ["I"] (exd_point 2 0 0) exd_tm) = [0; 5] /\
+  cs = [([("I", 0); ("K1", 1); ("K0", 3)], 55); ([("I", 0); ("K1", 4); ("K0", 4)], 2);
+        ([("I", 2); ("K1", 0); ("K0", 0)], 21); ([("I", 2); ("K1", 0); ("K0", 3)], 44); ([("I", 2); ("K1", 5); ("K0", 5)], 78)] /\
+  (* K0 = 3 meets under K1 = 1 at I = 0 and under K1 = 0 at I = 2 *)
+  sum_at (exd_point 0 1 3) cs = 55 /\ sum_at (exd_point 2 0 3) cs = 44 /\ sum_at (exd_point 2 1 3) cs = 0 /\
+  term_den exd_tm (collapse "K" "K0" (exd_point 2 0 3)) = 44.
+Proof.
+  cbv zeta. split; [vm_compute; reflexivity|]. split.
+  { intros ld E. injection E as <-. vm_compute. reflexivity. }
+  repeat split; vm_compute; reflexivity.
+Qed.
+End ExamplesDyn.
